@@ -9,6 +9,7 @@ import (
 	"context"
 	"fmt"
 	"runtime"
+	"sort"
 	"sync/atomic"
 	"time"
 
@@ -81,9 +82,14 @@ func genC15(seed uint64, tier string) *Plan {
 			id := int64(len(popIDs))
 			popIDs = append(popIDs, id)
 			// mode: 0 plain, 1 cancel inside the window between context check and wait
+			// mode 2: the context ends by a deadline instead of an explicit cancel (the "cancel" of
+			// such a pop is virtual time passing its deadline)
 			mode := int64(0)
-			if r.chance(0.3) {
+			switch y := r.intn(10); {
+			case y < 3:
 				mode = 1
+			case y < 5:
+				mode = 2
 			}
 			p.Items = append(p.Items, Item{Op: "pop", A: []int64{id, mode}})
 		case x < wPush+wPop+wCancel:
@@ -125,6 +131,7 @@ type qop struct {
 	cancel  context.CancelFunc
 	ctx     context.Context
 	started bool
+	deadline bool // the context ends by a deadline
 }
 
 type qHistOp struct {
@@ -284,6 +291,11 @@ func runQueue(s *sim) {
 			}
 			pops[op.popID] = op
 			op.ctx, op.cancel = context.WithCancel(context.Background())
+			if it.a(1) == 2 {
+				op.ctx, op.cancel = context.WithDeadline(context.Background(), time.Now().Add(time.Duration(1+len(pops))*time.Hour))
+				op.deadline = true
+				s.probe("pop_with_deadline_context")
+			}
 			op.call = next()
 			op.started = true
 			window := it.a(1) == 1
@@ -444,7 +456,37 @@ func runQueue(s *sim) {
 			if p.ret == 0 {
 				s.probe("cancel_while_waiting")
 			}
-			p.cancel()
+			if p.deadline {
+				// let virtual time pass this pop's deadline; deadline pops created before it expire on
+				// the way: each of those expiries is an operation of the history too
+				target := deadlineOf(p.ctx)
+				var extra []*qop
+				var ids []int64
+				for id, o := range pops {
+					if o != p && o.deadline && !cancelled[id] && !deadlineOf(o.ctx).After(target) {
+						ids = append(ids, id)
+					}
+				}
+				sort.Slice(ids, func(a, b int) bool { return ids[a] < ids[b] })
+				for _, id := range ids {
+					extra = append(extra, &qop{idx: i, kind: "cancel", popID: id, call: next(), started: true})
+				}
+				if d := time.Until(target); d > 0 {
+					time.Sleep(d + time.Second)
+				}
+				synctestWait()
+				for _, so := range extra {
+					cancelled[so.popID] = true
+					so.out = "ok"
+					so.ret = next()
+					ops = append(ops, so)
+					so.done.Store(true)
+					record(so)
+				}
+				s.probe("deadline_passed_while_pop_waits")
+			} else {
+				p.cancel()
+			}
 			cancelled[p.popID] = true
 			op.out = "ok"
 			op.ret = next()
@@ -663,4 +705,10 @@ func postC15(res *RunResult, post map[string]any) {
 		res.Violations = append(res.Violations, Violation{Property: "C15", Invariant: "linearizable",
 			Signature: "C15/linearizability", Detail: fmt.Sprintf("history not linearizable against the bounded two-class FIFO model (cap=%d): %+v", capn, hist)})
 	}
+}
+
+
+func deadlineOf(ctx context.Context) time.Time {
+	d, _ := ctx.Deadline()
+	return d
 }
